@@ -384,6 +384,16 @@ def files_cases(tier):
     for mode in ("exposure1", "obs_seq"):
         cases.append({"part": "files", "save": [["pixel", "npy"], ["image", "fits"]], "mode": mode, "repeat": 3})
         cases.append({"part": "files", "save": [["pixel", "npy"]], "mode": mode, "repeat": 2, "precious": True})
+    # the save list of ONE outputs object edited in place between two runs (an entry appended / a format list replaced)
+    for mode in ("exposure1", "obs_seq", "obs_dask"):
+        cases.append({"part": "files", "save": [["pixel", "npy"]], "mode": mode, "repeat": 2,
+                      "edit": [["pixel", "npy"], ["image", "fits"]]})
+        cases.append({"part": "files", "save": [["pixel", "npy"], ["image", "npy"]], "mode": mode, "repeat": 2,
+                      "edit": [["pixel", "fits"], ["image", "npy"]]})
+    # the writer methods called directly, n times into one folder with automatic numbering (n > 10: two-digit numbers)
+    for fmt in ("npy", "fits", "txt", "csv"):
+        for n in (3, 12):
+            cases.append({"part": "files", "direct": fmt, "n": n, "save": [["pixel", fmt]], "mode": "direct"})
     return cases
 
 
@@ -408,11 +418,76 @@ def _save_list(sl):
     return [{k: v} for k, v in d.items()]
 
 
+def run_direct_case(case):
+    """n direct calls of one writer method without a run number: n distinct files, each holding what its call wrote"""
+    from pyxel.outputs import ExposureOutputs
+
+    seed = int(os.environ.get("VERIF_SEED", "0") or 0) % 5
+    fmt, n = case["direct"], case["n"]
+    viol = []
+    tmp = tempfile.mkdtemp(prefix="vp_c19d_")
+    parent = os.path.join(tmp, "parent")
+    os.mkdir(parent)
+    clock = FakeClock().install()
+
+    def bad(code, what):
+        viol.append(({"part": "files", "mode": "direct", "code": code, "fmt": fmt}, f"[direct save_to_{fmt} x {n}] {what}"))
+
+    try:
+        out = ExposureOutputs(output_folder=parent, save_data_to_file=None)
+        out.create_output_folder()
+        writer = getattr(out, f"save_to_{fmt}")
+        paths, datas = [], []
+        for i in range(n):
+            data = np.arange(6, dtype="float64").reshape(2, 3) + 100.0 * i + seed
+            existing = {os.path.join(dp, f) for dp, _, fs in os.walk(parent) for f in fs}
+            audit_start(parent)
+            try:
+                p = writer(data=data, name="detector.pixel.array")
+            except Exception as e:  # noqa: BLE001
+                audit_stop()
+                bad("raised", f"call {i + 1} raised {type(e).__name__}: {str(e)[:200]}")
+                break
+            # (numpy.savetxt opens its target twice: only files that existed BEFORE the call count)
+            for ev, q, _existed in audit_stop():
+                if q in existing:
+                    bad("overwrite", f"call {i + 1}: {ev} on {os.path.relpath(q, parent)} which existed before the call")
+                    break
+            paths.append(str(p))
+            datas.append(data)
+        if len(set(paths)) != len(paths):
+            bad("report-count", f"the {len(paths)} calls returned only {len(set(paths))} distinct file names: "
+                f"{[os.path.basename(p) for p in paths]}")
+        for i, (p, data) in enumerate(zip(paths, datas)):
+            if not os.path.isfile(p):
+                bad("missing-file", f"call {i + 1} returned {os.path.basename(p)} which does not exist")
+                continue
+            if fmt in ("npy", "fits"):
+                a = _read_back(p)
+            else:
+                try:
+                    a = np.loadtxt(p, delimiter="," if fmt == "csv" else "|", ndmin=2)
+                except Exception:  # noqa: BLE001
+                    a = None
+            if a is None or a.shape != data.shape or not np.array_equal(np.asarray(a, dtype="float64"), data):
+                bad("wrong-content", f"file {os.path.basename(p)} returned by call {i + 1} holds "
+                    f"{None if a is None else np.asarray(a).tolist()} but that call wrote {data.tolist()}")
+                break
+    finally:
+        audit_stop()
+        clock.remove()
+        shutil.rmtree(tmp, ignore_errors=True)
+    return {"viol": viol, "sig": cfgx.sig(["direct", fmt, n]), "nontrivial": True, "n": n,
+            "outcome": {"unsupported": False, "files_read_back": n}, "sets": {"unsupported": []}}
+
+
 def run_files_case(case):
     import pyxel
     from pyxel.observation import Observation, ParameterValues
     from pyxel.outputs import ExposureOutputs, ObservationOutputs
 
+    if case.get("direct"):
+        return run_direct_case(case)
     seed = int(os.environ.get("VERIF_SEED", "0") or 0) % 5
     sl, mode = case["save"], case["mode"]
     viol = []
@@ -441,6 +516,12 @@ def run_files_case(case):
         outobj = None
         for rep in range(case.get("repeat", 1)):
             probes.reset()
+            if rep == 1 and case.get("edit") and outobj is not None:
+                # in-place edit of the list the outputs object holds (no new list object is assigned)
+                sl = case["edit"]
+                lst = outobj.save_data_to_file
+                del lst[:]
+                lst.extend(_save_list(sl))
             det = mk.detector("ccd", 2, 3)
             steps = 2 if mode == "exposure2" else 1
             times = [float(i + 1) for i in range(steps)]
